@@ -39,6 +39,18 @@ type caseA struct {
 	Arg        int    `json:"arg"`
 	Near       int    `json:"near,omitempty"` // md5 / checksum-header / trailer-checksum: 0 = the digest of other content, 1 = the right digest with the case of one letter changed (another value in base64), 2 = ... with its last character replaced by one that differs in a data bit, 3 = ... in a padding bit (no canonical base64 text)
 	Proc       bool   `json:"proc,omitempty"` // real gateway process over TCP
+	Other      *other `json:"other,omitempty"`
+}
+
+// other: a second, valid upload (to a key of its own) that the gateway receives completely while this one is half
+// received - what the two have to do with each other is nothing
+type other struct {
+	Mode   string `json:"mode"`
+	Algo   string `json:"algo,omitempty"`
+	Size   int    `json:"size"`
+	Seed   uint64 `json:"seed"`
+	Chunks []int  `json:"chunks,omitempty"`
+	At     int    `json:"at"` // before which body fragment of this upload (1 = the first)
 }
 
 const bkt = "integ"
@@ -402,8 +414,9 @@ func same(a, b state) bool {
 }
 
 type verdict struct {
-	Effective bool
-	Status    int
+	Effective   bool
+	Status      int
+	Interleaved bool // the other upload really ran while this one was half received
 }
 
 func runA(c caseA) error { _, err := execA(c); return err }
@@ -453,7 +466,36 @@ func execA(c caseA) (v verdict, err error) {
 	if !effective {
 		return v, nil
 	}
-	resp, terr := s3c.Do(w.eng, req)
+	var resp *s3c.Resp
+	var terr error
+	if c.Other != nil && !c.Proc {
+		o := c.Other
+		okey := "/" + bkt + "/" + key + "-other"
+		opayload := s3c.GenBytes(o.Seed, o.Size)
+		oreq, _ := buildUpload(caseA{Target: "put", Mode: o.Mode, Algo: o.Algo, Size: o.Size, Seed: o.Seed, Chunks: o.Chunks, Corrupt: "none"}, okey, nil, opayload)
+		var oresp *s3c.Resp
+		var oerr error
+		resp, terr = s3c.DoDuring(w.eng, req, o.At, func() { oresp, oerr = s3c.Do(w.eng, oreq) })
+		if oresp != nil || oerr != nil {
+			v.Interleaved = true
+			if pe, ok := oerr.(*gw.PanicError); ok {
+				return v, fmt.Errorf("the other upload panicked at %s: %s", pe.Site, pe.Value)
+			}
+			if oerr != nil {
+				return v, fmt.Errorf("SETUP: transport: %v", oerr)
+			}
+			st, err := objState(w.cl, okey)
+			if err != nil {
+				return v, fmt.Errorf("SETUP: %v", err)
+			}
+			if oresp.OK() && (!st.Exists || !bytes.Equal(st.Body, opayload)) {
+				return v, fmt.Errorf("a valid upload (%s, %d bytes, chunks %v) received while another upload (%s, %d bytes, chunks %v, fragments %v) was half received (before fragment %d) was acknowledged and stored %s, not its bytes", o.Mode, o.Size, o.Chunks, c.Mode, c.Size, c.Chunks, c.Frags, o.At, st)
+			}
+			w.cl.Call("DELETE", okey, nil, nil, nil)
+		}
+	} else {
+		resp, terr = s3c.Do(w.eng, req)
+	}
 	if pe, ok := terr.(*gw.PanicError); ok {
 		return v, fmt.Errorf("upload panicked at %s: %s", pe.Site, pe.Value)
 	}
@@ -570,6 +612,23 @@ func genCase(t *rapid.T) caseA {
 	if c.Corrupt == "md5" || c.Corrupt == "checksum-header" || c.Corrupt == "trailer-checksum" {
 		c.Near = rapid.SampledFrom([]int{0, 0, 1, 2, 3}).Draw(t, "near")
 	}
+	if rapid.IntRange(0, 3).Draw(t, "pair") == 0 {
+		// a second upload arrives while this one is half received
+		modes := []string{"chunked-unsigned-trailer", "chunked-unsigned-trailer", "chunked-signed-trailer", "chunked-signed", "plain"}
+		o := &other{Mode: rapid.SampledFrom(modes).Draw(t, "other_mode"), Algo: rapid.SampledFrom([]string{c.Algo, c.Algo, "crc64nvme", "crc32"}).Draw(t, "other_algo"),
+			Size: rapid.SampledFrom([]int{1, 100, 40000, 70001}).Draw(t, "other_size"), Seed: c.Seed + 5,
+			Chunks: rapid.SampledFrom([][]int{nil, {65536}, {8192}, {1000}}).Draw(t, "other_chunks")}
+		if rapid.Bool().Draw(t, "pair_large") {
+			// chunks larger than the pieces a backend reads in: the rest of a chunk waits inside the decoder
+			c.Size = rapid.SampledFrom([]int{40000, 70001, 200000}).Draw(t, "pair_size")
+			c.Chunks = []int{rapid.SampledFrom([]int{65536, 40000, 100000}).Draw(t, "pair_chunk")}
+		}
+		if len(c.Frags) == 0 {
+			c.Frags = rapid.SliceOfN(rapid.SampledFrom([]int{100, 4096, 20000, 50000}), 1, 6).Draw(t, "pair_frags")
+		}
+		o.At = rapid.IntRange(1, len(c.Frags)+1).Draw(t, "other_at")
+		c.Other = o
+	}
 	return c
 }
 
@@ -614,7 +673,10 @@ func testC06(t *testing.T, proc bool) {
 		if c.Corrupt == "md5" || c.Corrupt == "checksum-header" || c.Corrupt == "trailer-checksum" {
 			cls = append(cls, []string{"digest:of-other-content", "digest:letter-case-changed", "digest:last-data-bit-changed", "digest:padding-bit-changed"}[c.Near])
 		}
-		ev.Case(fmt.Sprintf("%s|%s|%s|%s|%s|%v|%v|%d|%v|%v|%v|%v|%v|%d", c.Target, c.Prior, c.Mode, c.Corrupt, c.Algo, c.WithMD5, c.WithCsum, c.Size, c.Chunks, c.Sidecar, c.NoOTmp, c.Versioning, proc, c.Near), c.Corrupt != "none", cls...)
+		if v.Interleaved {
+			cls = append(cls, "another-upload-in-between")
+		}
+		ev.Case(fmt.Sprintf("%s|%s|%s|%s|%s|%v|%v|%d|%v|%v|%v|%v|%v|%d|%+v", c.Target, c.Prior, c.Mode, c.Corrupt, c.Algo, c.WithMD5, c.WithCsum, c.Size, c.Chunks, c.Sidecar, c.NoOTmp, c.Versioning, proc, c.Near, c.Other), c.Corrupt != "none" || v.Interleaved, cls...)
 		ev.Sample("corrupt:"+c.Corrupt, 1, c)
 		if err != nil {
 			if strings.HasPrefix(err.Error(), "SETUP") {
